@@ -490,6 +490,43 @@ def eval_delay(ctx, c):
     return line, cont
 
 
+def gen_delayhist(rng):
+    """a history of K solutions for one input: valid, zero and missing (NaN) delays in any order"""
+    F = rng.randint(1, 4)
+    freqs = [856e6 + k * 208984.375 for k in range(F)]
+    n = rng.randint(2, 4)
+    delays = [rng.choice([float('nan'), float('nan'), 0.0, rng.uniform(-5e-9, 5e-9), rng.uniform(-5e-9, 5e-9)])
+              for _ in range(n)]
+    return dict(kind='delayhist', freqs=freqs, delays=delays)
+
+
+def eval_delayhist(ctx, c):
+    from katdal.applycal import calc_delay_correction
+    from katdal.categorical import CategoricalData, ComparableArrayWrapper
+    vals = []
+    for k, d in enumerate(c['delays']):
+        v = np.full((2, 2), 1e-10 * (k + 1))          # the other inputs differ from solution to solution
+        v[0, 1] = d
+        vals.append(ComparableArrayWrapper(v))
+    events = list(range(0, 2 * len(vals) + 1, 2))
+    sensor = CategoricalData(vals, events)
+    lines = [' '.join(['delay', '_' if math.isnan(d) else fbits(d), sx([fbits(f) for f in c['freqs']])])
+             for d in c['delays']]
+
+    def cont(nodes):
+        out = calc_delay_correction(sensor, (0, 1), np.array(c['freqs']))
+        ctx.tag('delay-history')
+        for k, (d, node) in enumerate(zip(c['delays'], nodes)):
+            got = np.asarray(out[events[k]])
+            spec = cvals(node[1])
+            j = close(got, spec, 1e-5)
+            if j is not None:
+                return (f'delay history {c["delays"]}: correction during solution {k} (delay {d}) at freq '
+                        f'{c["freqs"][j]} is {got[j]}, expected exp(-2 pi i d f) with a missing delay as zero = {spec[j]}'), False
+        return None, True
+    return lines, cont
+
+
 TARGET_NAMES = ['gaincal1', 'gaincal2', 'other', 'J1939-6342', 'PKS 1934-63', 'unknown']
 
 
@@ -824,7 +861,7 @@ def eval_skipreject(ctx, c, node):
 # ------------------------------------------------------------------ driver
 
 GENS = [('names', gen_names, 0.28), ('stitch', gen_stitch, 0.12), ('cinterp', gen_cinterp, 0.12),
-        ('gain', gen_gain, 0.16), ('bandpass', gen_bandpass, 0.1), ('delay', gen_delay, 0.04), ('flux', gen_flux, 0.06),
+        ('gain', gen_gain, 0.16), ('bandpass', gen_bandpass, 0.1), ('delay', gen_delay, 0.02), ('delayhist', gen_delayhist, 0.03), ('flux', gen_flux, 0.05),
         ('pipeline', gen_pipeline, 0.08), ('skipreject', gen_skipreject, 0.04)]
 
 
@@ -859,6 +896,8 @@ def evaluate(ctx, cases):
             elif k == 'pipeline':
                 ls, f = eval_pipeline(ctx, c)
                 item = (ls, f)
+            elif k == 'delayhist':
+                item = eval_delayhist(ctx, c)
             else:
                 raise common.Broken('unknown case kind ' + k)
         except common.Broken:
